@@ -112,12 +112,17 @@ class Env:
                 all(is_default(k, c[k], c, self.orig[k]) for k in c if c[k] != self.orig[k])
         # what loaded must round-trip (C05) and, for tskit.load, be a valid tree sequence
         q = os.path.join(self.tmp, "rt%d.trees" % os.getpid())
-        try:
-            obj.dump(q)
-            again = self.canon(loader(self.api, self.skip_tables, self.skip_ref)(q))
-            out["rt"] = canon_diff(c, again, limit=2)
-        except Exception as e:
-            out["rt"] = "raised " + exc_name(e)
+        for attempt in (0, 1):      # an OSError of the operating system (not of the library) is retried once
+            try:
+                obj.dump(q)
+                again = self.canon(loader(self.api, self.skip_tables, self.skip_ref)(q))
+                out["rt"] = canon_diff(c, again, limit=2)
+                break
+            except OSError as e:
+                out["rt"] = "raised " + exc_name(e) + ": " + str(e)[:120]
+            except Exception as e:
+                out["rt"] = "raised " + exc_name(e) + ": " + str(e)[:120]
+                break
         if self.api == "ts":
             out["valid"] = validity_problems(obj.dump_tables())
         wf = wf_problems(c)
@@ -179,7 +184,9 @@ def validity_problems(tc):
     import numpy as np
     P = []
     L = tc.sequence_length
-    if not (L > 0 and math.isfinite(L)):
+    if math.isnan(L):
+        P.append("sequence_length_nan")
+    elif not L > 0:         # the documented requirement is only "> 0": +inf passes
         P.append("sequence_length")
     n = tc.nodes
     N = n.num_rows
@@ -909,7 +916,8 @@ class Data(CorruptFamily):
                 if o.get("rt"):
                     out.append(("data:not-roundtrip", "edit %r loaded but does not round-trip: %s" % (eds[k], o["rt"])))
                 if o.get("valid"):
-                    out.append(("data:invalid-ts:" + "+".join(cls), "edit %r: tskit.load returned an invalid tree sequence: %s" % (eds[k], o["valid"])))
+                    out.append(("data:invalid-ts:" + "+".join(x.replace(" ", "_") for x in o["valid"]),
+                                "edit %r (items %s): tskit.load returned an invalid tree sequence: %s" % (eds[k], "+".join(cls), o["valid"])))
         seen, uniq = set(), []
         for k, m in out:
             if k not in seen:
